@@ -2,7 +2,8 @@
 import ast
 
 from ..model import AnalysisError
-from ..lib import FV, decode_new, decode_call, phi_members, is_sym, is_const, is_str, strip_stores, stores_of
+from ..lib import (FV, decode_new, decode_call, phi_members, is_sym, is_const, is_str, strip_stores, stores_of,
+                   find_assign, find_assigns, simple_assigns, local_term)
 from ..cfg import always_raises, walk_stmts
 from . import common as cm
 from . import geom
@@ -56,58 +57,65 @@ def d1_sel_convert(chk, repo):
     dim, di, sel, seli = v.ctx.args_of(t)
     chk.ob("mesh.Mesh._sel_convert_input::axis-of-dim", v.eq(di, v.ctx.mk(("call", "Region._dim2index", 2, ()), (v.spec("self.region"), dim))),
            "C07.D1", f"returned axis index {v.show(di)[:120]} must be region._dim2index of the returned dim", v.f, r)
-    # every assignment to `selection` / `selection_index` that is not a list/slice: paired by test point
-    pairs = {}
-    for st in v.stmts():
-        if isinstance(st, ast.Assign) and len(st.targets) == 1 and isinstance(st.targets[0], ast.Name):
-            nm = st.targets[0].id
-            tt = v.term(st.value, at=st)
-            par = v.cfg.parent.get(id(st))
-            blk = id(par[0]) if par and par[0] is not None else 0
-            fld = par[1] if par else ""
-            pairs.setdefault((blk, fld), {})[nm] = (st, tt)
-    for name, s_, tt in appends(v, v.stmts()):
-        par = v.cfg.parent.get(id(s_))
-        pairs.setdefault((id(par[0]), par[1]), {})[name + "+"] = (s_, tt)
+    # per block: the value whose term is point2index(TP)[k] (index-like) and the one that is index2point(...)[k']
+    # (centre-like) - found by their form, whatever the variables are called
+    blocks = {}
+    entries = [(st, nm, tt) for st, nm, tt in simple_assigns(v)] + [(s_, nm + "+", tt) for nm, s_, tt in appends(v, v.stmts())]
+    for st, nm, tt in entries:
+        hb = v.ctx.head_of(tt)
+        if not (hb and hb[0] == "sub"):
+            continue
+        c = decode_call(v.ctx, v.ctx.args_of(tt)[0])
+        if not c or not is_sym(v.ctx, c[1][0], "self"):
+            continue
+        par = v.cfg.parent.get(id(st))
+        key = (id(par[0]) if par and par[0] is not None else 0, par[1] if par else "")
+        if c[0] == "Mesh.point2index":
+            blocks.setdefault(key, {})["index"] = (st, tt)
+        elif c[0] == "Mesh.index2point":
+            blocks.setdefault(key, {})["centre"] = (st, tt)
     n_pairs = 0
-    for key, d in pairs.items():
-        for a_name, b_name in (("selection", "selection_index"), ("selection+", "selection_index+")):
-            if a_name in d and b_name in d:
-                (sa, ta), (sb, tb) = d[a_name], d[b_name]
-                ha = v.ctx.head_of(ta)
-                if (ha or ("",))[0] in ("list",) or (decode_call(v.ctx, ta) or ("",))[0] in ("list", "slice"):
-                    continue
-                # tb == point2index(TP)[k];  ta == index2point(point2index(TP))[k]
-                ok = False
-                hb = v.ctx.head_of(tb)
-                if hb and hb[0] == "sub":
-                    p2i, k = v.ctx.args_of(tb)
-                    c = decode_call(v.ctx, p2i)
-                    if c and c[0] == "Mesh.point2index" and is_sym(v.ctx, c[1][0], "self"):
-                        want_a = v.ctx.mk(("sub",), (v.ctx.mk(("call", "Mesh.index2point", 2, ()), (v.spec("self"), p2i)), k))
-                        ok = v.eq(ta, want_a) and v.eq(k, di)
-                        # the test point is the region's lower corner with the requested coordinate at axis k, or the centre
-                        tp = c[1][1]
-                        tps = stores_of(v.ctx, tp)
-                        okt = v.eq(tp, v.spec("self.region.center")) or (len(tps) == 1 and v.eq(tps[0][0], di))
-                        ok = ok and okt
-                n_pairs += 1
-                chk.ob(f"mesh.Mesh._sel_convert_input::same-test-point::line{n_pairs}", ok, "C07.D1",
-                       f"centre {v.show(ta)[:140]} and index {v.show(tb)[:140]} must be index2point(point2index(tp))[k] and "
-                       "point2index(tp)[k] of one test point tp", v.f, sa)
+    for key, d in blocks.items():
+        n_pairs += 1
+        ok = False
+        ta = tb = None
+        if "index" in d and "centre" in d:
+            (sa, ta), (sb, tb) = d["centre"], d["index"]
+            p2i, k = v.ctx.args_of(tb)
+            c = decode_call(v.ctx, p2i)
+            want_a = v.ctx.mk(("sub",), (v.ctx.mk(("call", "Mesh.index2point", 2, ()), (v.spec("self"), p2i)), k))
+            ok = v.eq(ta, want_a) and v.eq(k, di)
+            # the test point is the region's lower corner with the requested coordinate at axis k, or the centre
+            tp = c[1][1]
+            tps = stores_of(v.ctx, tp)
+            okt = v.eq(tp, v.spec("self.region.center")) or (len(tps) == 1 and v.eq(tps[0][0], di))
+            ok = ok and okt
+        anyst = (d.get("centre") or d.get("index"))[0]
+        chk.ob(f"mesh.Mesh._sel_convert_input::same-test-point::line{n_pairs}", ok, "C07.D1",
+               f"centre {v.show(ta)[:140] if ta is not None else None} and index {v.show(tb)[:140] if tb is not None else None} must be "
+               "index2point(point2index(tp))[k] and point2index(tp)[k] of one test point tp", v.f, anyst)
     chk.require(n_pairs >= 3, f"_sel_convert_input: only {n_pairs} centre/index pairs found (single value, range bound, default)")
     # the slice
-    sl = [s for s in assigns_to(v, "selection_index") if (decode_call(v.ctx, v.term(s.value, at=s)) or ("",))[0] == "slice"]
+    sl = find_assigns(v, lambda t_, s_: (decode_call(v.ctx, t_) or ("",))[0] == "slice")
     ok = False
     if len(sl) == 1:
-        c = decode_call(v.ctx, v.term(sl[0].value, at=sl[0]))
-        lst = v.ev.term(ast.Name(id="selection_index", ctx=ast.Load()), at=sl[0])
+        st_, nm_, t_ = sl[0]
+        c = decode_call(v.ctx, t_)
+        lst = local_term(v, nm_, st_)          # the list of bound indices the slice replaces
         ok = len(c[1]) == 2 and v.eq(c[1][0], v.ctx.mk(("sub",), (lst, v.ctx.const(0)))) and \
             v.eq(c[1][1], v.spec("L[1] + 1", env={"L": lst}))
     chk.ob("mesh.Mesh._sel_convert_input::range-slice", ok, "C07.D1",
-           "a range must become slice(index of lower bound, index of upper bound + 1)", v.f, sl[0] if sl else None)
+           "a range must become slice(index of lower bound, index of upper bound + 1)", v.f, sl[0][0] if sl else None)
     loops = [s for s in v.stmts() if isinstance(s, ast.For)]
-    okl = len(loops) == 1 and v.eq(v.term(loops[0].iter, at=loops[0]), v.spec("sorted(r)", env={"r": v.ev.term(ast.Name(id="range_", ctx=ast.Load()), at=loops[0])}))
+    okl = False
+    if len(loops) == 1:
+        it = decode_call(v.ctx, v.term(loops[0].iter, at=loops[0]))
+        if it and it[0] == "sorted" and len(it[1]) == 1:
+            # the sorted value is the one the enclosing branch identified as a sequence
+            for c_, pol in v.cfg.path_condition(loops[0]):
+                ct = decode_call(v.ctx, v.ev.term(c_, at=geom._if_stmt(v, c_)))
+                if pol and ct and ct[0] == "isinstance" and v.eq(ct[1][0], it[1][0]):
+                    okl = True
     chk.ob("mesh.Mesh._sel_convert_input::bounds-sorted", okl, "C07.D1", "range bounds must be processed in sorted order", v.f)
     # refusals
     n_ref = 0
@@ -175,9 +183,10 @@ def d3_mesh_sel(chk, repo):
     chk.ob("mesh.Mesh.sel::plane-condition", v.eq(v.ev.term(br.test, at=br), v.spec("isinstance(s, numbers.Real)", env={"s": sel})),
            "C07.D3", "the plane branch is taken exactly for a single (real) coordinate", v.f, br)
     # plane branch
-    idxs = assigns_to(v, "idxs", br.body)
-    oki = len(idxs) == 1 and v.eq(v.term(idxs[0].value, at=idxs[0]),
-                                  v.spec("[i for i in range(self.region.ndim) if i != k]", env={"k": k}))
+    want_idxs = v.spec("[i for i in range(self.region.ndim) if i != k]", env={"k": k})
+    idxs = [st_ for st_, nm_, t_ in simple_assigns(v, br.body) if (v.ctx.head_of(t_) or ("",))[0] == "seqcomp" and
+            (decode_call(v.ctx, v.ctx.args_of(v.ctx.args_of(t_)[1])[0]) or ("",))[0] == "range"]
+    oki = len(idxs) == 1 and v.eq(v.term(idxs[0].value, at=idxs[0]), want_idxs)
     chk.ob("mesh.Mesh.sel::plane::kept-axes", oki, "C07.D3", "kept axes must be [i for i in range(ndim) if i != axis]", v.f,
            idxs[0] if idxs else br)
     if oki:
